@@ -863,7 +863,7 @@ Section Reemit.
     { rewrite re_redecl in Em. destruct (has_decl DOCANN T); [|reflexivity]. cbn in Em. discriminate. }
     unfold docann_extended. rewrite re_find_st by reflexivity. rewrite re_P, Hda.
     rewrite find_decl_app. unfold has_decl in Hda. destruct (find_decl DOCANN T); [discriminate|].
-    cbn. reflexivity.
+    vm_compute. reflexivity.
   Qed.
 
   Lemma re_names_R : sort_names (s_redecl s) = map t_name (filter isRd T).
@@ -1100,9 +1100,10 @@ Section Roundtrip.
     destruct (find_st DOCANN types) as [da|] eqn:E; [|discriminate]. exists da. split; [reflexivity|].
     pose proof E as E'. rewrite find_st_findk in E'. apply findk_some in E'. destruct E' as [H1 H2]. repeat split; auto.
     intros Hem. unfold em, EN, emit_names in Hem.
-    destruct (docann_extended s) eqn:Ex; destruct (memb DOCANN (s_redecl s)) eqn:Em; cbn in Hem, H;
+    destruct (docann_extended s) eqn:Ex; destruct (memb DOCANN (s_redecl s)) eqn:Em; cbn in Hem;
       try (rewrite Em in Hem); try discriminate.
-    all: apply stype_eqb_eq; exact H.
+    unfold docann_extended in Ex. fold types in Ex. rewrite E in Ex. apply negb_false_iff in Ex.
+    apply stype_eqb_eq in Ex. rewrite Ex. reflexivity.
   Qed.
 
   Lemma rt_EN_nodup : NoDup EN.
@@ -1748,3 +1749,27 @@ Proof.
   exists (mkT "uima.cas.ArrayBase" None "uima.cas.TOP" [mkF "elements" None "uima.cas.TOP" None (Some false)]).
   eexists. split; [vm_compute; reflexivity|]. split; vm_compute; reflexivity.
 Qed.
+
+(* before commit b4a91fc the writer decided from the feature NAMES whether DocumentAnnotation is the implicitly added one: a
+   DocumentAnnotation of the user's own whose only feature is called language -- here with a description, supertype
+   AnnotationBase and language : Integer -- was not written and came back as the default one.  The type system satisfies
+   today's wf_tsb (it did not satisfy the old premise docann_okb_names_old, which had to exclude it). *)
+Definition ex_docann_own : tsys := mkTS
+  [mkST DOCANN (Some "mine") "uima.cas.AnnotationBase" [mkSF "language" false None "uima.cas.Integer" None None];
+   mkST "a.B" None DOCANN []] [].
+Lemma docann_names_only_old_refuted :
+  exists s order s', wf_tsb s = true /\ docann_okb_names_old s = false /\
+    order_okb order (descr_of_ts_names_old s) = true /\
+    ts_of_descr order (descr_of_ts_names_old s) = Ok s' /\ canon s' <> canon (norm_ts s).
+Proof.
+  exists ex_docann_own, [DOCANN; "a.B"].
+  eexists. split; [vm_compute; reflexivity|]. split; [vm_compute; reflexivity|]. split; [vm_compute; reflexivity|].
+  split; [vm_compute; reflexivity|].
+  intros H. apply (f_equal (fun x => map st_super (s_types x))) in H. vm_compute in H. discriminate.
+Qed.
+(* ... and with the whole declaration compared it is written and read back as declared *)
+Lemma docann_own_roundtrip_now :
+  order_okb [DOCANN; "a.B"] (descr_of_ts ex_docann_own) = true /\
+  exists s', ts_of_descr [DOCANN; "a.B"] (descr_of_ts ex_docann_own) = Ok s' /\
+             s_types s' = s_types ex_docann_own /\ s_redecl s' = [DOCANN].
+Proof. split; [vm_compute; reflexivity|]. eexists. split; [vm_compute; reflexivity|]. split; reflexivity. Qed.
